@@ -49,17 +49,23 @@ Theorem C07_routing_v1_satisfies_property : forall size t rs,
 Proof. exact routing_v1_satisfies_property. Qed.
 Print Assumptions C07_routing_v1_satisfies_property.
 
-(* v2, for every way of cutting the stream into batches: exactly the same records are
-   acknowledged (the first m, once, in order) and the pipeline stops in the same cases.
-   _partial: the remaining clauses of [route_ok] for v2 (DLQ confirmations in source order,
-   confirmation before acknowledgment) are evaluated by the monitor on every observed run but
-   are not proved for the v2 model. *)
-Theorem C07_routing_v2_handled_and_stop_partial : forall size t bs,
+(* v2, for every way of cutting the stream into batches: the same records are acknowledged
+   (the first m, once, in order) and the pipeline stops in the same cases ... *)
+Theorem C07_routing_v2_handled_and_stop : forall size t bs,
   let (es, tm) := route_v2 (new_win size t) 0 bs in
   let (m, st) := spec_route size t init_sp (concat bs) in
   acks_of es = seq 0 m /\ is_some tm = st.
 Proof. exact routing_v2_handled_and_stop. Qed.
-Print Assumptions C07_routing_v2_handled_and_stop_partial.
+Print Assumptions C07_routing_v2_handled_and_stop.
+
+(* ... and what v2 does satisfies every clause of the monitor [route_ok]: every acknowledged
+   rejected record was confirmed by the DLQ exactly once and before its acknowledgment, DLQ
+   confirmations come in source order and only for rejected records *)
+Theorem C07_routing_v2_satisfies_property : forall size t bs,
+  let (es, tm) := route_v2 (new_win size t) 0 bs in
+  route_ok size t (concat bs) es (is_some tm) = true.
+Proof. exact routing_v2_satisfies_property. Qed.
+Print Assumptions C07_routing_v2_satisfies_property.
 
 Theorem C07_routing_parity : forall size t bs,
   let (es1, tm1) := route_v1 (new_win size t) false 0 (concat bs) in
